@@ -166,7 +166,7 @@ def _ref_ok(image: str, ch: str, forbidden: List[str]) -> Optional[str]:
     return None
 
 
-def check_escape_function(ctx: Ctx, modes: List[str], rule: str) -> None:
+def check_escape_function(ctx: Ctx, modes: List[str], rule: str, strict_other: bool = False) -> None:
     """Obligations E1-E6 on htmltools._util.html_escape for the given modes ('text', 'attr')."""
     prog = ctx.prog
     I = Interp(prog)
@@ -280,6 +280,10 @@ def check_escape_function(ctx: Ctx, modes: List[str], rule: str) -> None:
                 if img != c and _html.unescape(img) != c:
                     ctx.fail(f"{rule}.E1-3", ESC, f"image of {c!r} in {mode} mode",
                              f"{c!r} is rewritten to {img!r}, which does not decode back to it")
+                elif img != c and strict_other:
+                    ctx.fail(f"{rule}.E1-3", ESC, f"image of {c!r} in {mode} mode",
+                             f"{c!r} is rewritten to {img!r} in {mode} mode although it is not one of the characters this mode escapes ({''.join(keys)!r}): "
+                             f"every other character must be left unchanged", witness=f"html_escape({('<' + c)!r}, attr={mode == 'attr'})")
             ctx.ok(f"{rule}.E1-3", f"{mode} mode: every other probed character is unchanged or decodes back ({len(_PROBE)} probes)")
             # the slow path must not be restricted to fewer strings than 'contains a key'
             if guards:
